@@ -1618,7 +1618,7 @@ class Score:
     def from_str(cls, s):
         try:
             from musiclang import Chord
-            pattern = re.compile(r'(?<=\))\s*\+\s*(?=\()')
+            pattern = re.compile(r'(?<=\))\s*\+\s*(?=[(IV])')
             data = re.split(pattern, str(s))
             chords = [eval(str(d).replace('\n', '')) for d in data]
             assert isinstance(chords[0], Chord)
